@@ -59,9 +59,9 @@ def _state(h, sysm, b):
     return h.real("t"), q, h.vec("u", sysm.nu)
 
 
-def moreau_step(h, which="revolute", seed=0):
+def moreau_step(h, which="revolute", seed=0, moving=False):
     from cardillo.solver import Moreau
-    sysm, b, j = build(h, which, seed)
+    sysm, b, j = build(h, which, seed, moving=moving)
     with h.capture():
         sol = Moreau(sysm, 1.0, 0.1)
     tn, qn, un = _state(h, sysm, b)
@@ -74,6 +74,7 @@ def moreau_step(h, which="revolute", seed=0):
         out = sol.step()
     (conv, jj, err), tn1, qn1, un1, P_g, P_gamma, la_c, P_N, P_F = out
     h.eq("t_{n+1} = t_n + dt", tn1, tn + dt)
+    h.eq("t_{n+1/2} = t_n + dt/2", sol.tn12, tn + 0.5 * dt)
     nu = sysm.nu
     if h.sym:
         rec = h.lu_log()[-1]
@@ -403,6 +404,8 @@ def cases(tier, seed):
     cs = []
     for which in ("revolute", "spherical", "distance"):
         cs.append(Case(f"moreau_step/{which}", moreau_step, dict(which=which, seed=seed), timeout=T, hard=T * 8))
+        # rheonomic anchor (accelerating frame): the explicitly time-dependent part of g_dot must be taken at the midpoint time as well
+        cs.append(Case(f"moreau_step/{which}/moving", moreau_step, dict(which=which, seed=seed, moving=True), timeout=T, hard=T * 8))
         for solver in ("BackwardEuler", "Rattle"):
             cs.append(Case(f"rows/{solver}/{which}", residual_rows, dict(solver=solver, which=which, seed=seed), timeout=T, hard=T * 8))
         if which != "distance":
